@@ -645,9 +645,12 @@ class Gen:
             if pairs:
                 p = rng.choice(pairs)
                 if rng.random() < 0.25:
+                    # the same words the other way round (usually nowhere)
                     a, b = p.split(' ')
-                    if a != b:
-                        p = b + ' ' + a      # same words, not adjacent so
+                    q = b + ' ' + a
+                    if all((q in x.head) == (q in x.head_raw)
+                           for x in self.view.msgs):
+                        p = q
                 return _case(rng, p)
             cands = self._tokens_in(own)
         else:
@@ -693,7 +696,7 @@ class Gen:
                 # numbers that are not UIDs of the view: gaps, below, beyond
                 c = rng.choice([1, max(1, nums[0] - 1) if nums else 1,
                                 top + 1, top + rng.randint(2, 50),
-                                rng.randint(1, top + 3)])
+                                rng.randint(1, top + 3), 4294967295])
                 if rng.random() < 0.5:
                     return '%d' % c
                 return rng.choice(['%d:*' % c, '%d:%d' % (c, pick()),
@@ -742,7 +745,19 @@ class Gen:
         if name == 'HEADER':
             fld = rng.choice(HDR_FIELDS)
             key = fld.lower()
-            if fld == 'Date' or rng.random() < 0.22:
+            if fld == 'Date':
+                # the Date field carries no tokens: has-the-field, weekday
+                # names (written in some Date headers, absent from others)
+                # and years as written
+                r = rng.random()
+                years = ['%d' % m.sent[0] for m in view.msgs if m.sent]
+                if r < 0.45:
+                    needle = ''
+                elif r < 0.85 or not years:
+                    needle = _case(rng, rng.choice(DOW))
+                else:
+                    needle = rng.choice(years + ['1987'])
+            elif rng.random() < 0.22:
                 needle = ''
             else:
                 needle = self._needle(lambda m: m.field_text(key))
@@ -1042,11 +1057,21 @@ class Runner:
         """Structural refinement of the mechanism where one is evident."""
         view = self.view
         by_uid = {m.uid: m for m in view.msgs}
-        extra, missing = res - exp, exp - res
+        vis = view.visible()
+        extra, missing = (res - exp) & vis, (exp - res) & vis
         if node[0] == 'STR' and node[1] == 'BODY' and extra and not missing:
             needle = node[2].lower()
             if all(needle in by_uid[u].head for u in extra):
                 return ':matches-header-text'
+        if node[0] == 'HDR' and node[1].lower() == 'date' and extra \
+                and not missing:
+            needle = node[2].lower()
+            if needle in [d.lower() for d in DOW] and all(
+                    by_uid[u].sent is not None and
+                    DOW[_dt.date(*by_uid[u].sent).weekday()].lower() == needle
+                    for u in extra):
+                # not in the header text, but it is the weekday of the date
+                return ':matches-rerendered-date'
         return ''
 
     async def diagnose_wrong(self, prog: dict[str, Any], uid: bool,
@@ -1079,8 +1104,11 @@ class Runner:
             self.hist.report(
                 'search-wrong-result:' + name,
                 '%s -> UIDs %r, RFC 3501 evaluation of the dumped view gives '
-                '%r (view %r); smallest wrong sub-program: %s' % (
+                '%r (view %r%s); smallest wrong sub-program: %s' % (
                     wire, sorted(res), sorted(exp), self.view.uids,
+                    (', of which %r are expunged but not yet announced and '
+                     'may or may not be reported' % sorted(self.view.hidden))
+                    if self.view.hidden else '',
                     wit.get('query', '(top-level conjunction)')), w)
 
     async def diagnose_reject(self, prog: dict[str, Any], uid: bool,
@@ -1263,6 +1291,7 @@ async def build_mailbox(env: Any, hist: History, msgs: list[dict[str, Any]],
     selects the mailbox in between."""
     p = Session(env, hist, 90, Sched(), 0)
     hist.sessions.remove(p)
+    hist.c13_prov = [p]                      # type: ignore[attr-defined]
     if not await p.start():
         hist.aborted = 'provision-login'
         return False
@@ -1408,11 +1437,12 @@ async def run_history(spec: dict[str, Any], hist: History,
 # --------------------------------------------------------------------------
 # scripted triggers (minimal reproductions of findings)
 
-def _plain_msg(cid: str, subject: str, body: str, extra: str = '') -> bytes:
+def _plain_msg(cid: str, subject: str, body: str,
+               date: str = 'Mon, 01 Jan 2024 10:00:00 +0000') -> bytes:
     return ('From: a@host1.example\r\nTo: b@host2.example\r\n'
-            'Subject: %s\r\nDate: Mon, 01 Jan 2024 10:00:00 +0000\r\n'
-            'X-VF-ID: %s\r\n%s\r\n%s\r\n' % (subject, cid, extra,
-                                             body)).encode('ascii')
+            'Subject: %s\r\nDate: %s\r\n'
+            'X-VF-ID: %s\r\n\r\n%s\r\n' % (subject, date, cid,
+                                           body)).encode('ascii')
 
 
 async def run_script(name: str, hist: History, counters: dict[str, int],
@@ -1421,7 +1451,10 @@ async def run_script(name: str, hist: History, counters: dict[str, int],
     try:
         texts = [('qxzjkvw', '100'), ('wvkjzxq', 'qxzjkvw 200'),
                  ('jjqqxxz', '300')]
-        msgs = [{'raw': _plain_msg('s%d' % k, su, bo), 'flags': fl,
+        dates = ['Mon, 01 Jan 2024 10:00:00 +0000',
+                 'Mon, 1 Jan 2024 11:00:00 +0100',
+                 '1 Jan 2024 12:00:00 +0000']       # a Monday, not written
+        msgs = [{'raw': _plain_msg('s%d' % k, su, bo, dates[k]), 'flags': fl,
                  'idate': '0%d-Jan-2024 10:00:00 +0000' % (k + 1),
                  'cid': 's%d' % k}
                 for k, ((su, bo), fl) in enumerate(zip(
@@ -1447,6 +1480,9 @@ async def run_script(name: str, hist: History, counters: dict[str, int],
                                   False)
         elif name == 'not-not':
             await run.run_program(P(['NOT', ['NOT', ['K', 'SEEN']]]), False)
+        elif name == 'header-date-rerendered':
+            await run.run_program(P(['HDR', 'Date', 'Mon', 'atom', 'atom']),
+                                  False)
         elif name == 'sanity':
             await run.run_program(P(['OR', ['K', 'SEEN'],
                                      ['STR', 'SUBJECT', 'wvkj', 'quoted']],
@@ -1458,7 +1494,7 @@ async def run_script(name: str, hist: History, counters: dict[str, int],
 
 
 SCRIPTS = ['uid-search-bare-seqset', 'body-matches-header', 'not-not',
-           'sanity']
+           'header-date-rerendered', 'sanity']
 
 
 # --------------------------------------------------------------------------
@@ -1499,7 +1535,7 @@ class C13(Check):
     time_cap = {'quick': 70.0, 'thorough': 600.0}
 
     def cases(self, tier: str, seed: int) -> Iterable[dict[str, Any]]:
-        n = 420 if tier == 'quick' else 14000
+        n = 1500 if tier == 'quick' else 24000
         rng = random.Random(seed * 15485863 + 13)
         leafs = K_NOARG + K_STR + K_DATE + K_SIZE + K_KW + K_OID + \
             ['HEADER', 'UID', 'SEQSET']
@@ -1558,15 +1594,19 @@ class C13(Check):
     def _attach(hist: History) -> None:
         """The session's SEARCH exchanges (without the bulky dump)."""
         lines: list[str] = []
+        for s in getattr(hist, 'c13_prov', []):
+            for step, d, data in s.conn.transcript:
+                if d == 'C' and b' APPEND ' in data[:30]:
+                    lines.append('%s%d %r' % (d, s.conn.cid, data[:700]))
+        lines = lines[:12]
+        tail: list[str] = []
         for s in hist.sessions:
             for step, d, data in s.conn.transcript:
                 if d == 'S' and not data.startswith((b'* SEARCH', b't')):
                     continue
-                if d == 'C' and b'FETCH' in data[:40]:
-                    continue
-                lines.append('%s%d %r' % (d, s.conn.cid, data[:240]))
+                tail.append('%s%d %r' % (d, s.conn.cid, data[:240]))
         hist.violations[0].setdefault('witness', {})['transcript'] = \
-            lines[-60:]
+            lines + tail[-60:]
 
 
 CHECK = C13()
